@@ -2,6 +2,7 @@ package main
 
 import (
 	"fmt"
+	"os"
 	"math/big"
 	"sort"
 
@@ -22,11 +23,13 @@ type monC13 struct {
 	ledger map[PosKey]map[string]*big.Rat // position -> reward denom -> entitlement
 	res    map[PosKey]map[string]*big.Rat // accumulated 18-digit index resolution per position/denom
 	segs   map[PosKey]int                 // settlements since the last claim (one truncation each at most)
+	vmin   map[PosKey]*big.Rat            // smallest and largest value of the position since it last claimed, while
+	vmax   map[PosKey]*big.Rat            // it had something accrued
 	dead   bool
 }
 
 func newMonC13() *monC13 {
-	return &monC13{ledger: map[PosKey]map[string]*big.Rat{}, res: map[PosKey]map[string]*big.Rat{}, segs: map[PosKey]int{}}
+	return &monC13{ledger: map[PosKey]map[string]*big.Rat{}, res: map[PosKey]map[string]*big.Rat{}, segs: map[PosKey]int{}, vmin: map[PosKey]*big.Rat{}, vmax: map[PosKey]*big.Rat{}}
 }
 func (m *monC13) Name() string     { return "C13" }
 func (m *monC13) Finish(r *Runner) {}
@@ -108,6 +111,12 @@ func (m *monC13) settle(r *Runner, pre *Snap, st settlement) {
 	if len(ws) > 1 {
 		r.Probe("c13_two_assets_on_one_validator")
 	}
+	if os.Getenv("VERIF_C13_DEBUG") != "" {
+		for _, x := range ws {
+			a := pre.Assets[x.denom]
+			fmt.Fprintf(os.Stderr, "C13DEBUG   weights at %s: asset %s weight %s tokens-on-validator %s total %s -> %s\n", pre.Time.Format("15:04:05.000"), x.denom, a.RewardWeight, rstr(pre.ValTokens(st.val, x.denom)), a.TotalTokens, x.wt.FloatString(24))
+		}
+	}
 	ulp := big.NewRat(1, 1_000_000_000_000_000_000)
 	for _, x := range ws {
 		share := rquo(x.wt, total)
@@ -125,7 +134,18 @@ func (m *monC13) settle(r *Runner, pre *Snap, st settlement) {
 				amt := rmul(rmul(ratInt(c.Amount), share), rquo(v, K))
 				// index resolution: the per-token index and the normalised weight are rounded at 10^-18
 				res := radd(rmul(v, ulp), rmul(ratInt(c.Amount), rmul(ulp, big.NewRat(4, 1))))
+				// the staked reward weights themselves (rewardWeight x tokens / total) are 18-digit numbers (QuoInt
+				// truncates): when they are only a few ulps large - a weight that decayed to 2 x 10^-18 - the split
+				// between the assets is arbitrary within n ulps of their sum
+				wres := rquo(rmul(ulp, big.NewRat(int64(2*len(ws)), 1)), total)
+				if wres.Cmp(big.NewRat(1, 1)) > 0 {
+					wres = big.NewRat(1, 1)
+				}
+				res = radd(res, rmul(ratInt(c.Amount), wres))
 				m.credit(p, c.Denom, amt, res)
+				if os.Getenv("VERIF_C13_DEBUG") != "" {
+					fmt.Fprintf(os.Stderr, "C13DEBUG settle %s %s: %s gets %s of %s (asset share %s, value %s of %s)\n", short(st.val), c.Denom, p, rstr(amt), c.Amount, rstr(share), rstr(v), rstr(K))
+				}
 			}
 		}
 	}
@@ -193,6 +213,21 @@ func (m *monC13) OnStep(r *Runner, st *Step) {
 			return
 		}
 	}
+	// value range of every position that carries an accrued entitlement (before this step's claims are judged)
+	for p := range m.ledger {
+		for _, sn := range []*Snap{pre, post} {
+			if _, ok := sn.Dels[p]; !ok {
+				continue
+			}
+			v := sn.PosValue(p)
+			if cur, ok := m.vmin[p]; !ok || v.Cmp(cur) < 0 {
+				m.vmin[p] = v
+			}
+			if cur, ok := m.vmax[p]; !ok || v.Cmp(cur) > 0 {
+				m.vmax[p] = v
+			}
+		}
+	}
 	settled, _ := settlementsOf(r, st.Events)
 	for _, s := range settled {
 		if !s.coins.IsZero() {
@@ -209,6 +244,9 @@ func (m *monC13) OnStep(r *Runner, st *Step) {
 		}
 	}
 	claimed := m.claimedPositions(st)
+	if os.Getenv("VERIF_C13_DEBUG") != "" {
+		fmt.Fprintf(os.Stderr, "C13DEBUG step %s claimed=%v paid=%v\n", st.Name, claimed, paid)
+	}
 	if len(claimed) > 0 {
 		r.Eval("C13.a")
 		r.Nontrivial()
@@ -219,6 +257,7 @@ func (m *monC13) OnStep(r *Runner, st *Step) {
 		segs := 0
 		tokenRound := map[string]*big.Rat{}
 		fracRound := map[string]*big.Rat{}
+		revalued := map[string]*big.Rat{}
 		for _, p := range claimed {
 			v := pre.PosValue(p)
 			// relative error of the module's two 18-digit quotients behind a position's token value:
@@ -243,7 +282,22 @@ func (m *monC13) OnStep(r *Runner, st *Step) {
 					tokenRound[d] = radd(getR(tokenRound, d), radd(rquo(x, v), big.NewRat(1, 1)))
 				}
 				fracRound[d] = radd(getR(fracRound, d), rmul(x, relErr))
+				// the module pays index difference x the position's *current* tokens: if the position's value moved
+				// while the entitlement was accruing, the payout moves with it (C12's mechanism)
+				lo, hi := m.vmin[p], m.vmax[p]
+				vpre := pre.PosValue(p)
+				if lo == nil || vpre.Cmp(lo) < 0 {
+					lo = vpre
+				}
+				if hi == nil || vpre.Cmp(hi) > 0 {
+					hi = vpre
+				}
+				if lo.Sign() > 0 && hi.Cmp(lo) > 0 {
+					revalued[d] = radd(getR(revalued, d), rmul(x, rsub(rquo(hi, lo), big.NewRat(1, 1))))
+				}
 			}
+			delete(m.vmin, p)
+			delete(m.vmax, p)
 			segs += m.segs[p] + 1
 			delete(m.ledger, p)
 			delete(m.res, p)
@@ -286,12 +340,14 @@ func (m *monC13) OnStep(r *Runner, st *Step) {
 				cls = "payout:token-rounding"
 			case dev.Cmp(radd(radd(radd(getR(tokenRound, d), getR(res, d)), getR(fracRound, d)), big.NewRat(int64(segs), 1))) <= 0:
 				cls = "payout:share-fraction-rounding"
+			case getR(revalued, d).Sign() > 0 && dev.Cmp(radd(radd(radd(radd(getR(tokenRound, d), getR(res, d)), getR(fracRound, d)), getR(revalued, d)), big.NewRat(int64(segs), 1))) <= 0:
+				cls = "payout:position-revalued-between-accrual-and-claim"
 			case g.Cmp(w) > 0:
 				cls = "payout-too-much:" + st.ROp.Op.K
 			case g.Cmp(w) < 0:
 				cls = "payout-too-little:" + st.ROp.Op.K
 			}
-			r.Violate("C13.a", cls, fmt.Sprintf("%s: %s paid %s %s, accumulated entitlement %s (accepted [%s, %s])", st.Name, short(del), rstr(g), d, rstr(w), rstr(lo), rstr(hi)))
+			r.Violate("C13.a", cls, fmt.Sprintf("%s: %s paid %s %s, accumulated entitlement %s (accepted [%s, %s]; token-rounding bound %s, share-fraction bound %s, index resolution %s, settlements %d)", st.Name, short(del), rstr(g), d, rstr(w), rstr(lo), rstr(hi), rstr(getR(tokenRound, d)), rstr(getR(fracRound, d)), rstr(getR(res, d)), segs))
 			if r.failed() {
 				return
 			}
@@ -403,6 +459,8 @@ func (m *monC13) OnStep(r *Runner, st *Step) {
 			delete(m.ledger, p)
 			delete(m.res, p)
 			delete(m.segs, p)
+			delete(m.vmin, p)
+			delete(m.vmax, p)
 		}
 	}
 }
